@@ -57,6 +57,8 @@ func runC12(c *Config, r *Report) {
 	c12R16(ic, r)
 	c12R17and18(ic, r)
 	c12R19(ic, r)
+	c12R20(ic, r)
+	c12R21(ic, r)
 	{
 		// R12.14 = R06.15: an ill-typed program that makes a compile pass fault is rejected with
 		// an error, not with a panic of the host
@@ -1136,5 +1138,201 @@ func c12R19(ic *IC, r *Report) {
 		}
 		r.Check(len(bad) == 0, "R12.19", fmt.Sprintf("importSrc/registration#%d/after-the-checking-passes", i+1), ic.pos(st.Pos()), fmt.Sprintf("none of the %d calls of the checking passes is reachable from the registration", len(passes)),
 			"importSrc records the package as imported at "+ic.pos(st.Pos())+" and can still run "+strings.Join(bad, ", ")+" afterwards: when that pass rejects the package the record stays, so the same program evaluated again finds the package already imported and runs against the ill-typed package with a nil error")
+	}
+}
+
+func init() {
+	ruleText["R12.20"] = "the division-by-constant-zero rule of binary expressions (a) is applied to the assignment forms too: every case of typecheck.binaryExpr that calls the zero test lists the assignment action with the plain one (or the switch is over the normalised action), and (b) asks the value of the divisor only when there is one: in the zero test every use of the node's constant value (Interface(), a type assertion) is dominated by a validity test - an untyped operand is not always a constant (1 << n)"
+}
+
+// c12R20: found through the round-6 report on C12 (2.2 and 2.3). a /= 0 was compiled and
+// panicked at run time; a / (1 << n) - well typed - was rejected by a compiler panic in zeroConst.
+func c12R20(ic *IC, r *Report) {
+	info := ic.Info
+	fi := ic.fn(r, "typecheck.binaryExpr")
+	zc := ic.F["zeroConst"]
+	if fi == nil || zc == nil || zc.Decl.Body == nil {
+		r.Errorf("R12.20: typecheck.binaryExpr or zeroConst not found")
+		return
+	}
+	n := 0
+	ast.Inspect(fi.Decl.Body, func(q ast.Node) bool {
+		cc, ok := q.(*ast.CaseClause)
+		if !ok || len(callsIn(info, cc, false, "interp.zeroConst")) == 0 {
+			return true
+		}
+		// the switch tag: n.action (both forms must be listed) or a normalised local (one is enough)
+		var sw *ast.SwitchStmt
+		for _, p := range enclosingPath(fi.Decl.Body, cc) {
+			if s, ok := p.(*ast.SwitchStmt); ok {
+				sw = s
+			}
+		}
+		names := map[string]bool{}
+		for _, e := range cc.List {
+			if id := identOf(e); id != nil {
+				names[id.Name] = true
+			}
+		}
+		n++
+		okForms := false
+		if sw != nil && sw.Tag != nil {
+			if v := selField(info, sw.Tag); v == nil {
+				okForms = true // a local holding the normalised action
+			}
+		}
+		for nm := range names {
+			if names[nm+"Assign"] {
+				okForms = true
+			}
+		}
+		var list []string
+		for nm := range names {
+			list = append(list, nm)
+		}
+		sort.Strings(list)
+		r.Check(okForms, "R12.20", "typecheck.binaryExpr/zero-divisor-case:"+strings.Join(list, ",")+"/assignment-form-too", ic.pos(cc.Pos()), "the case covers the assignment form",
+			"typecheck.binaryExpr applies the division-by-zero rule under case "+strings.Join(list, ", ")+" of a switch over the node's action: the assignment form (a /= 0, a %= 0) has another action and is accepted; the program starts and panics at run time (integer divide by zero) where compiled Go rejects it")
+		return true
+	})
+	if n == 0 {
+		r.Errorf("R12.20: no case of typecheck.binaryExpr calls the zero test")
+	}
+	// (b)
+	fg := buildFlow(zc.Decl.Body, info)
+	valid := callsIn(info, zc.Decl.Body, false, "reflect.Value.IsValid")
+	var uses []ast.Node
+	ast.Inspect(zc.Decl.Body, func(q ast.Node) bool {
+		switch y := q.(type) {
+		case *ast.CallExpr:
+			if isCallTo(info, y, "reflect.Value.Interface") {
+				uses = append(uses, y)
+			}
+		case *ast.TypeAssertExpr:
+			uses = append(uses, y)
+		}
+		return true
+	})
+	bad := ""
+	for _, u := range uses {
+		dom := false
+		for _, v := range valid {
+			if d, ok := fg.dominates(v, u); ok && d {
+				dom = true
+			}
+		}
+		if !dom {
+			bad = types.ExprString(u.(ast.Expr)) + " at " + ic.pos(u.Pos())
+		}
+	}
+	r.Check(bad == "", "R12.20", "zeroConst/value-read-only-when-valid", ic.pos(zc.Decl.Pos()), fmt.Sprintf("%d direct reads of the constant value, each after a validity test", len(uses)),
+		"zeroConst reads the constant value of its operand ("+bad+") without a dominating validity test: an untyped operand that is not a constant (the shift 1 << n) has no value, the read panics and the well-typed expression a / (1 << n) is rejected with a compiler panic")
+}
+
+func init() {
+	ruleText["R12.21"] = "the arity rule of return statements counts the values actually returned: in the returnStmt case of cfg both arity errors (too many, not enough) compare the number of results with a count that is replaced by the number of results of the callee when the single operand is a call, and the 'not enough' test is not restricted to functions with unnamed results - only a return without operand may rely on named results"
+}
+
+// c12R21: found through the round-6 report on C12 (2.1, 2.2). func f() (a, b int) { return 1 }
+// was accepted, and func g() (int, int) { return f() } with f returning three values was
+// compiled and failed at run time (index out of range).
+func c12R21(ic *IC, r *Report) {
+	info := ic.Info
+	cfgFn := ic.fn(r, "Interpreter.cfg")
+	if cfgFn == nil {
+		return
+	}
+	var cc *ast.CaseClause
+	ast.Inspect(cfgFn.Decl.Body, func(q ast.Node) bool {
+		c, ok := q.(*ast.CaseClause)
+		if !ok {
+			return true
+		}
+		for _, l := range kindLabels(ic, c) {
+			if l == "returnStmt" && len(callsIn(info, c, true, "interp.mustReturnValue")) > 0 {
+				cc = c
+			}
+		}
+		return true
+	})
+	if cc == nil {
+		r.Errorf("R12.21: the returnStmt case of cfg (the one consulting mustReturnValue) was not found")
+		return
+	}
+	// the count: a local initialised from len(n.child) and reassigned from numOut under an isCall test
+	var count types.Object
+	ast.Inspect(cc, func(q ast.Node) bool {
+		as, ok := q.(*ast.AssignStmt)
+		if !ok || len(as.Lhs) != 1 || len(as.Rhs) != 1 {
+			return true
+		}
+		if c, ok := unparen(as.Rhs[0]).(*ast.CallExpr); ok && isCallTo(info, c, "interp.itype.numOut") {
+			for _, g := range pathGuards(cc, as) {
+				if len(callsIn(info, g.cond, true, "interp.isCall")) > 0 {
+					if id := identOf(as.Lhs[0]); id != nil {
+						count = info.ObjectOf(id)
+					}
+				}
+			}
+		}
+		return true
+	})
+	uses := func(e ast.Expr) bool {
+		found := false
+		ast.Inspect(e, func(q ast.Node) bool {
+			if id, ok := q.(*ast.Ident); ok && count != nil && info.ObjectOf(id) == count {
+				found = true
+			}
+			return true
+		})
+		return found
+	}
+	n := 0
+	ast.Inspect(cc, func(q ast.Node) bool {
+		ifs, ok := q.(*ast.IfStmt)
+		if !ok {
+			return true
+		}
+		msg := ""
+		ast.Inspect(ifs.Body, func(z ast.Node) bool {
+			if bl, ok := z.(*ast.BasicLit); ok && (strings.Contains(bl.Value, "too many arguments to return") || strings.Contains(bl.Value, "not enough arguments to return")) {
+				msg = strings.Trim(bl.Value, "\"")
+			}
+			return true
+		})
+		if msg == "" || len(callsIn(info, ifs.Cond, true, "interp.itype.numOut")) == 0 {
+			return true
+		}
+		n++
+		why := ""
+		if !uses(ifs.Cond) {
+			why = "it compares " + types.ExprString(ifs.Cond) + ", not the number of values of a single call operand"
+		}
+		if strings.HasPrefix(msg, "not enough") {
+			// not only for unnamed results: every guard mentioning mustReturnValue offers an alternative
+			for _, g := range pathGuards(cc, ifs) {
+				if g.want && len(callsIn(info, g.cond, true, "interp.mustReturnValue")) > 0 {
+					if be, ok := unparen(g.cond).(*ast.BinaryExpr); !ok || be.Op != token.LOR {
+						why = "it is made only under " + types.ExprString(g.cond)
+					}
+				}
+			}
+			if len(callsIn(info, ifs.Cond, true, "interp.mustReturnValue")) > 0 {
+				if evalCond(ifs.Cond, func(e ast.Expr) int {
+					if c, ok := unparen(e).(*ast.CallExpr); ok && isCallTo(info, c, "interp.mustReturnValue") {
+						return triFalse
+					}
+					return triUnknown
+				}) == triFalse {
+					why = "it requires mustReturnValue (unnamed results): " + types.ExprString(ifs.Cond)
+				}
+			}
+		}
+		r.Check(why == "", "R12.21", "cfg/case:returnStmt/arity:"+strings.Fields(msg)[0]+"-"+strings.Fields(msg)[1], ic.pos(ifs.Pos()), "the arity test counts the values of a call operand and applies to named results",
+			"the '"+msg+"' test of the returnStmt case is too narrow: "+why+". func f() (a, b int) { return 1 } is accepted, and return f() with a callee returning more values than the function has results is compiled and fails at run time")
+		return true
+	})
+	if n < 2 {
+		r.Errorf("R12.21: %d arity tests found in the returnStmt case (too many, not enough expected)", n)
 	}
 }
